@@ -3,6 +3,7 @@ import VarmqVerif.Model.Job
 import VarmqVerif.Model.Sig
 import VarmqVerif.Model.Wake
 import VarmqVerif.Model.Ack
+import VarmqVerif.Model.Pool
 import Driver.Parse
 /-!
   Correspondence replay (DESIGN.md §3.3 (a)): the raw event lines of an implementation execution
@@ -423,4 +424,88 @@ def feed (st : RState St) (lineNo : Nat) (l : RawLine) : RState St :=
       | .error e => .rejected lineNo s!"{e} @ {l.tag} {l.g} {" ".intercalate l.f}"
   | r => r
 end AckMap
+end VarmqVerif.Driver
+
+namespace VarmqVerif.Driver
+-- ---------------------------------------------------------------- Pool
+namespace PoolMap
+open Pool
+
+structure St where
+  s : State := Pool.init
+  nodes : List (String × Nat) := []
+  jobs : List (String × Nat) := []
+  got : List (Nat × Nat) := []         -- goroutine ↦ node it just obtained from the cache (for `go Serve`)
+  ctx : List (Nat × Nat) := []         -- goroutine ↦ node of the Node method it is in (Send / Stop / Serve)
+  pend : List (Nat × Nat) := []        -- goroutine ↦ node argument of the List call in progress
+
+def idx (tab : List (String × Nat)) (name : String) : Nat × List (String × Nat) :=
+  match tab.find? (·.1 == name) with
+  | some (_, i) => (i, tab)
+  | none => (tab.length, (name, tab.length) :: tab)
+
+def aget (m : List (Nat × Nat)) (g : Nat) : Option Nat := (m.find? (·.1 == g)).map (·.2)
+def aset (m : List (Nat × Nat)) (g v : Nat) : List (Nat × Nat) := (g, v) :: m.filter (·.1 != g)
+
+def events (x : St) (l : RawLine) : Except String (St × List Ev) :=
+  let g := l.g
+  match l.tag, l.f with
+  | "E", [fn, obj, op, arg, res] =>
+    if (obj.startsWith "Pool#" && !(obj.startsWith "Pool#1.")) || (obj.startsWith "List#" && obj != "List#1" && !(obj.startsWith "List#1.")) then .error "NA second worker"
+    else if obj == "Pool#1.Cache" && op == "get" then
+      let (n, nodes) := idx x.nodes res
+      .ok ({ x with nodes := nodes, got := aset x.got g n }, [.get g n])
+    else if obj == "Pool#1.Cache" && op == "put" then
+      let (n, nodes) := idx x.nodes arg
+      .ok ({ x with nodes := nodes }, [.put g n])
+    else if op == "go" && fn == "worker.initPoolNode" then
+      match aget x.got g with
+      | some n => .ok (x, [.spawn g n (natOf (arg.drop 1).toString)])
+      | none => .error "Serve goroutine started without a node from the cache"
+    else if obj == "List#1" && (op == "call:PushNode" || op == "call:Remove") then
+      let (n, nodes) := idx x.nodes arg
+      .ok ({ x with nodes := nodes, pend := aset x.pend g n }, [])
+    else if obj == "List#1" && op == "ret:PushNode" then
+      match aget x.pend g with | some n => .ok (x, [.push g n]) | none => .error "PushNode return without call"
+    else if obj == "List#1" && op == "ret:Remove" then
+      match aget x.pend g with | some n => .ok (x, [.remove g n (res == "true")]) | none => .error "Remove return without call"
+    else if obj == "List#1" && op == "ret:PopBack" then
+      if res == "nil" then .ok (x, [.pop g none]) else
+      let (n, nodes) := idx x.nodes res
+      .ok ({ x with nodes := nodes }, [.pop g (some n)])
+    else if obj.startsWith "Node#" && (op == "call:Send" || op == "call:Stop" || op == "call:Serve") then
+      let (n, nodes) := idx x.nodes obj
+      .ok ({ x with nodes := nodes, ctx := aset x.ctx g n }, [])
+    else if obj.endsWith ":CreateNode.ch" && op == "send" then
+      match aget x.ctx g with
+      | some n =>
+        if fn == "Node.Stop" then .ok (x, [.sendStop g n])
+        else
+          let jn := (((arg.drop 1).toString.splitOn ",").headD "")
+          let (j, jobs) := idx x.jobs jn
+          .ok ({ x with jobs := jobs }, [.sendJob g n j])
+      | none => .error "send on a node channel outside Node.Send/Node.Stop"
+    else if obj.endsWith ":CreateNode.ch" && op == "recv" then
+      match aget x.ctx g with
+      | some n =>
+        if res.endsWith ",false}" then .ok (x, [.recv g n .stop])
+        else
+          let jn := (((res.drop 1).toString.splitOn ",").headD "")
+          let (j, jobs) := idx x.jobs jn
+          .ok ({ x with jobs := jobs }, [.recv g n (.job j)])
+      | none => .error "receive on a node channel outside Node.Serve"
+    else .ok (x, [])
+  | _, _ => .ok (x, [])
+
+def feed (st : RState St) (lineNo : Nat) (l : RawLine) : RState St :=
+  match st with
+  | .ok x =>
+    match events x l with
+    | .error e => if e.startsWith "NA" then .na e else .rejected lineNo s!"{e} @ {l.tag} {l.g} {" ".intercalate l.f}"
+    | .ok (x', evs) =>
+      match feedAll Pool.step x'.s evs with
+      | .ok s' => .ok { x' with s := s' }
+      | .error e => .rejected lineNo s!"{e} @ {l.tag} {l.g} {" ".intercalate l.f}"
+  | r => r
+end PoolMap
 end VarmqVerif.Driver
